@@ -77,12 +77,21 @@ def nucs_env(jit: bool = False, boundscheck: bool = False, extra: dict | None = 
 
 
 def prune_numba_caches(keep: str) -> None:
+    """Caches of other trees are removed only when they have not been used for an hour (another check may be running
+    against another tree at this very moment: removing its cache makes its compiled workers fail), and beyond the 12 most
+    recent ones."""
     root = CACHE / "numba"
     if not root.exists():
         return
-    for d in root.iterdir():
-        if d.is_dir() and not d.name.startswith(keep):
-            shutil.rmtree(d, ignore_errors=True)
+    now = time.time()
+    others = sorted((d for d in root.iterdir() if d.is_dir() and not d.name.startswith(keep)),
+                    key=lambda d: d.stat().st_mtime, reverse=True)
+    for k, d in enumerate(others):
+        try:
+            if k >= 12 or now - d.stat().st_mtime > 3600:
+                shutil.rmtree(d, ignore_errors=True)
+        except OSError:
+            pass
 
 
 def warm_jit(boundscheck: bool = False) -> float:
